@@ -70,6 +70,8 @@ func (l *Net) Serve(establish EstablishFn) {
 					l.log.Warn("", "error", err)
 				}
 			}()
+		} else {
+			_ = conn.Close() // accepted while the listener is closing: do not leave the connection open and unserved
 		}
 	}
 }
